@@ -271,14 +271,14 @@ class Function:
     def canon(self, i, subst=True, fold=True, casts=False, depth=6, inline_helpers=False, calls=False, _stack=None):
         """calls=True also substitutes locals defined by calls with side
         effects (provenance through a constructor / mutator call)"""
+        if i is None:
+            return "?"       # a store without a right-hand side (x++ / x--, also spelled x = x + 1)
         key = (i, subst, fold, casts, depth, inline_helpers, calls)
         if _stack is None and key in self._canon_cache:
             return self._canon_cache[key]
         self._thru_calls = calls
         try:
-            if i is None:
-            return "?"       # a store without a right-hand side (x++ / x--, also spelled x = x + 1)
-        r = self._canon(i, subst, fold, casts, depth, inline_helpers, _stack or ())
+            r = self._canon(i, subst, fold, casts, depth, inline_helpers, _stack or ())
         finally:
             self._thru_calls = False
         if _stack is None:
